@@ -2,7 +2,9 @@
 from checks import gcmon_common as C
 
 THEOREMS = ["Mmtk.Heap.firstOverlap_none_iff", "Mmtk.Heap.noOverlap_sound", "Mmtk.Heap.pairwise_insert",
-            "Mmtk.Heap.allocClash_sound", "Mmtk.Heap.adjacentOk_sorted_pairwise"]
+            "Mmtk.Heap.allocClash_sound", "Mmtk.Heap.adjacentOk_sorted_pairwise",
+            # the abstract algorithm (every schedule / every history), package algo
+            "Mmtk.AllocModel.inv_step", "Mmtk.AllocModel.alloc_disjoint_since_gc", "Mmtk.AllocModel.alloc_avoids_live", "Mmtk.AllocModel.free_avoids_live", "Mmtk.AllocModel.bump_guard", "Mmtk.AllocModel.refill_guard", "Mmtk.AllocModel.nextHole_spec", "Mmtk.AllocModel.immix_alloc_avoids_live", "Mmtk.AllocModel.immix_release_guard", "Mmtk.AllocModel.cell_guard", "Mmtk.AllocModel.cell_seq", "Mmtk.AllocModel.los_guard", "Mmtk.AllocModel.write_guard", "Mmtk.AllocModel.setRoot_guard", "Mmtk.AllocModel.publish_guard", "Mmtk.AllocModel.sweep_guard", "Mmtk.AllocModel.fromspace_release_guard"]
 META = {
     "text": "The monitor keeps the interval set {objects of the last snapshot} + {allocations since the last pause}; at every `alloc` result [a, a+sz) must not intersect any allocation since the pause, nor any snapshot object still reachable in the shadow heap (reach computed lazily); at every snapshot all real objects must be pairwise disjoint. Proved: the linear scan is exact (`firstOverlap_none_iff`), the sort-and-compare-neighbours check implies pairwise disjointness of the whole list (`noOverlap_sound`), checked insertion keeps a pairwise-disjoint set (`pairwise_insert`), and an accepted allocation is disjoint from every fresh interval and from every snapshot interval whose object is Reachable (`allocClash_sound`, through reach_iff). Real runs: as C01 (same cached traces), biased to small heaps and memory reuse right after GCs.",
     "note": "Level: proof of the monitor's model, partial w.r.t. the code (allocators are sampled, not modelled). NEW defect gc:concimmix-nonmoving-not-reset (ConcurrentImmix never resets the NonMoving Immix allocator) is reported by a dedicated corpus program; NonMoving is kept out of ConcurrentImmix's random stream.",
@@ -12,7 +14,7 @@ META = {
 
 
 def main(argv=None):
-    return C.run_check("C02", argv, ["MmtkModel.Props.C02"], THEOREMS, "common",
+    return C.run_check("C02", argv, ["MmtkModel.Props.C02", "MmtkModel.Props.C02Algo"], THEOREMS, "common",
                        rule="one evaluation = one successful `alloc` checked against the interval set; non-trivial = an allocation made after >= 1 pause (memory may be recycled); distinct by (plan, workers, address)",
                        assumptions=["a pause is visible as a change of `gcs=` in some result line before memory is reused (hx_gc prints gcs in every alloc result)",
                                     "objects not reachable at the last snapshot and not allocated since the last pause are not tracked (weaker, never unsound)"])
